@@ -2,7 +2,7 @@
     Property theorems only, about the definitions REGENERATED from
     ibicus/utils/_running_window_mode.py (Gen/GenWindows.v). *)
 From Coq Require Import ZArith List Bool Sorted.
-From IV Require Import NP GenWindows C07_proofs Grid Driver Driver_proofs Driver_corollaries YearsDriver_proofs DriverSkip.
+From IV Require Import NP GenWindows C07_proofs Grid Driver Driver_proofs Driver_corollaries YearsDriver_proofs DriverSkip Calendar Calendar_proofs C07_calendar.
 Import ListNotations.
 Open Scope Z_scope.
 
@@ -142,3 +142,35 @@ Theorem C07_evaluated_window_nonempty : forall L S dA c,
   In c (evaluated_centres S dA) -> days_indices_in_window L dA c <> [].
 Proof. exact evaluated_window_nonempty. Qed.
 Print Assumptions C07_evaluated_window_nonempty.
+
+(** the calendar hypothesis discharged: the time helpers (Model/Calendar.v, correspondence K19) give days of
+    the year in 1..366 for EVERY start date and every length (leap years, century years, series not starting
+    on 1 January), also when the time arrays are inferred (1950-01-01) *)
+Theorem C07_calendar_days_in_range : forall n y m d, valid_date y m d ->
+  forall x, In x (days_of_year_of (consecutive_dates n y m d)) -> 1 <= x <= 366.
+Proof. exact consecutive_dates_days_in_range. Qed.
+Print Assumptions C07_calendar_days_in_range.
+
+Theorem C07_inferred_calendar_days_in_range : forall n x, In x (days_of_year_of (inferred_dates n)) -> 1 <= x <= 366.
+Proof. exact inferred_dates_days_in_range. Qed.
+Print Assumptions C07_inferred_calendar_days_in_range.
+
+Theorem C07_day_of_year_range : forall y m d, valid_date y m d -> 1 <= doy y m d <= year_len y.
+Proof. exact doy_range. Qed.
+Print Assumptions C07_day_of_year_range.
+
+Theorem C07_month_of_day_of_year : forall y m d, valid_date y m d -> month_of y (doy y m d) = m.
+Proof. exact month_of_doy. Qed.
+Print Assumptions C07_month_of_day_of_year.
+
+(** end to end, no hypothesis on the days left: for every start date, every series length, every window
+    length and odd step <= length, and every window method returning one value per window element, the
+    loop of RunningWindowDebiaser.apply_location succeeds and gives every time step a value *)
+Theorem C07_apply_location_defined_on_real_calendars : forall (V : Type) (L S : Z) (n : nat) (y m d : Z) (Wc : Z -> list V),
+  0 < S -> S <= L -> S mod 2 = 1 -> valid_date y m d ->
+  let dA := days_of_year_of (consecutive_dates n y m d) in
+  (forall c, In c (days_window_centers S dA) -> length (Wc c) = length (days_indices_in_window L dA c)) ->
+  exists out, driver_skip V L S dA Wc = Some out /\ length out = n /\
+    forall k, (k < n)%nat -> exists v, nth k out None = Some v.
+Proof. exact apply_location_defined_on_real_calendars. Qed.
+Print Assumptions C07_apply_location_defined_on_real_calendars.
